@@ -1104,8 +1104,17 @@ class Interp:
             raise PyRaise(ExcVal("AttributeError", (attr,)))
         if isinstance(o, Unknown):
             return Unknown(f"{o.sym}.{attr}", meth=True)
+        if isinstance(o, ExtRef) and attr == "__name__":
+            return o.name.split(".")[-1]
         if isinstance(o, ExtRef):
+            if o.name == "math" and isinstance(getattr(math, attr, None), (int, float)):
+                return getattr(math, attr)
             return ExtRef(f"{o.name}.{attr}")
+        if isinstance(o, ast.AST):
+            # host object: a Python ast node handed to the interpreted code as data
+            if hasattr(o, attr):
+                return getattr(o, attr)
+            raise PyRaise(ExcVal("AttributeError", (f"{type(o).__name__} has no attribute {attr}",)))
         if isinstance(o, ExcVal):
             if attr == "args":
                 return o.args
@@ -1247,11 +1256,10 @@ class Interp:
     def _ext_call(self, name, args, kwargs):
         last = name.split(".")[-1]
         if any(isinstance(a, Unknown) for a in args) and last in ("len", "int", "float", "str", "abs", "min", "max", "sum", "round", "bool", "sorted", "list", "tuple", "set", "any", "all", "repr", "hash"):
-            if last == "bool":
-                return args[0]
-            if last in ("min", "max") and len(args) > 1:
-                return Unknown(f"{last}({', '.join(a.sym if isinstance(a, Unknown) else repr(a) for a in args)})")
-            return Unknown(f"{last}({', '.join(a.sym if isinstance(a, Unknown) else repr(a)[:30] for a in args)})")
+            if last == "bool" and len(args) == 1 and not kwargs:
+                return self.truth(args[0], "bool(…)")
+            parts = [_sym(a) for a in args] + [f"{k}={_sym(v)}" for k, v in kwargs.items()]
+            return Unknown(f"{last}({', '.join(parts)})")
         if name == "super":
             return self.fresh("super")
         if name == "print":
@@ -1352,6 +1360,8 @@ class Interp:
                     return ClassRef(x.cls)
                 if isinstance(x, ExcVal):
                     return ExtRef(x.clsname)
+                if isinstance(x, ast.AST):
+                    return ExtRef(f"ast.{type(x).__name__}")
                 if _opaque(x):
                     return self.fresh("type")
                 return ExtRef(type(x).__name__)
@@ -1395,9 +1405,15 @@ class Interp:
                 return getattr(_b, name)(*args, **kwargs)
             except Exception as ex:
                 raise PyRaise(ExcVal(type(ex).__name__, (str(ex),)))
+        if name.startswith("operator.") and not any(_opaque(a) for a in args) and hasattr(operator, last):
+            try:
+                return getattr(operator, last)(*args)
+            except Exception as ex:
+                raise PyRaise(ExcVal(type(ex).__name__, (str(ex),)))
         if name.startswith("math."):
             if any(_opaque(a) for a in args):
-                return self.fresh(name)
+                parts = [_sym(a) for a in args] + [f"{k}={_sym(v)}" for k, v in kwargs.items()]
+                return Unknown(f"{name}({', '.join(parts)})")
             try:
                 return getattr(math, last)(*args)
             except Exception as ex:
@@ -1431,6 +1447,11 @@ class Interp:
                 return cls.ci.name in self._cls_anc(v.cls)
             if isinstance(v, EnumVal):
                 return cls.ci.name in self._cls_anc(v.cls)
+            return False
+        if isinstance(cls, ExtRef) and isinstance(v, ast.AST):
+            t = getattr(ast, cls.name.split(".")[-1], None) if cls.name.startswith("ast.") else None
+            return isinstance(v, t) if isinstance(t, type) else False
+        if isinstance(cls, ExtRef) and cls.name.startswith("ast."):
             return False
         if isinstance(cls, ExtRef):
             n = cls.name.split(".")[-1]
